@@ -538,6 +538,14 @@ func c05States(t *testing.T) {
 			os.MkdirAll(telemetry.Default.LocalDir(), 0o777)
 			os.WriteFile(filepath.Join(telemetry.Default.LocalDir(), "weekends"), nil, 0o666)
 		}},
+		{"weekends-whitespace", func(e *c05env) {
+			os.MkdirAll(telemetry.Default.LocalDir(), 0o777)
+			os.WriteFile(filepath.Join(telemetry.Default.LocalDir(), "weekends"), []byte("\n"), 0o666)
+		}},
+		{"weekends-blanks", func(e *c05env) {
+			os.MkdirAll(telemetry.Default.LocalDir(), 0o777)
+			os.WriteFile(filepath.Join(telemetry.Default.LocalDir(), "weekends"), []byte(" \t \r\n"), 0o666)
+		}},
 		{"weekends-garbage", func(e *c05env) {
 			os.MkdirAll(telemetry.Default.LocalDir(), 0o777)
 			os.WriteFile(filepath.Join(telemetry.Default.LocalDir(), "weekends"), []byte{0xff, 0, 1}, 0o666)
